@@ -166,6 +166,23 @@ theorem sendAll_frame (s : State) (ems : List Msg) :
   have := foldStore_sameLife ems s
   exact ⟨this.1.symm, this.2.1.symm, this.2.2.1.symm, this.2.2.2.1.symm, by simp [this.2.2.2.2]⟩
 
+theorem store_idx (s : State) (m : Msg) : (store s m).idx = s.idx ∧ (store s m).cur = s.cur := by
+  unfold store
+  split
+  · exact ⟨rfl, rfl⟩
+  · split <;> split <;> exact ⟨rfl, rfl⟩
+
+theorem sendAll_idx (s : State) (ems : List Msg) : (sendAll s ems).idx = s.idx := by
+  unfold sendAll
+  simp only
+  induction ems generalizing s with
+  | nil => rfl
+  | cons m ms ih =>
+    rw [List.foldl_cons]
+    split
+    · rw [ih, (store_idx s m).1]
+    · exact ih _
+
 theorem sendAll_live (s : State) (ems : List Msg) (l : Live s) : Live (sendAll s ems) := by
   have f := sendAll_frame s ems
   exact ⟨f.2.2.1 ▸ l.1, f.1 ▸ l.2.1, f.2.1 ▸ l.2.2⟩
@@ -314,13 +331,27 @@ structure Preserved (H : Bytes → Bytes) (P : State → Prop) : Prop where
   onFill : ∀ (s : State), P s → P (fillBh H s)
   onAbort : ∀ (s : State) (e : Option ErrKind), P s → P (abort s e)
   onSend : ∀ (s : State) (nx : RoundSpec), P s → P (sendAll s (emitFor s nx))
-  onEnter : ∀ (s : State) (i : Nat) (nx : RoundSpec), P s → P (enter s i nx)
+  onEnter : ∀ (s : State) (i : Nat) (nx : RoundSpec), s.sc.rounds[i]? = some nx → i = s.idx + 1 → P s → P (enter s i nx)
   onEnter0 : ∀ (s : State), P s → P (enter0 s)
   onOutput : ∀ (s : State) (v : Nat), P s → P { enter0 s with result := some v }
 
 def Step.st : Step → State
   | .halt s => s
   | .more s => s
+
+theorem protoFinalize_round (s : State) (i : Nat) (nx : RoundSpec) (h : protoFinalize s = .round i nx) :
+    s.sc.rounds[i]? = some nx ∧ i = s.idx + 1 := by
+  unfold protoFinalize at h
+  split at h
+  · simp at h
+  · split at h
+    · simp at h
+    · split at h
+      · next nx' hnx =>
+        simp only [Next.round.injEq] at h
+        obtain ⟨rfl, rfl⟩ := h
+        exact ⟨hnx, rfl⟩
+      · simp at h
 
 theorem finalizeStep_pres {H : Bytes → Bytes} {P : State → Prop} (hp : Preserved H P) (s : State) (o : P s) :
     P (finalizeStep H s).st := by
@@ -339,11 +370,15 @@ theorem finalizeStep_pres {H : Bytes → Bytes} {P : State → Prop} (hp : Prese
       · split
         · (simp only [Step.st]; exact o1)
         · (simp only [Step.st]; exact hp.onAbort _ _ (hp.onOutput _ _ o1))
-      · next i nx _ =>
+      · next i nx hpf =>
         have o3 := hp.onSend (fillBh H s) nx o1
+        have hr := protoFinalize_round _ i nx hpf
+        have hsc : (sendAll (fillBh H s) (emitFor (fillBh H s) nx)).sc = (fillBh H s).sc :=
+          (sendAll_frame _ _).2.2.2.1
+        have hidx : (sendAll (fillBh H s) (emitFor (fillBh H s) nx)).idx = (fillBh H s).idx := sendAll_idx _ _
         split
         · (simp only [Step.st]; exact o3)
-        · have o4 := hp.onEnter _ i nx o3
+        · have o4 := hp.onEnter _ i nx (hsc ▸ hr.1) (hidx ▸ hr.2) o3
           split
           · next s5 culprit hq =>
             have := replayQueued_sameCore (enter (sendAll (fillBh H s) (emitFor (fillBh H s) nx)) i nx)
@@ -402,7 +437,7 @@ theorem preserved_of_sameLife (H : Bytes → Bytes) (P : State → Prop)
   onFill := fun s o => hl (fillBh_sameLife H s) o
   onAbort := ha
   onSend := hs
-  onEnter := fun s i nx o => hl (enter_sameLife s i nx) o
+  onEnter := fun s i nx _ _ o => hl (enter_sameLife s i nx) o
   onEnter0 := fun s o => hl (enter0_sameLife s) o
   onOutput := ho
 
@@ -458,7 +493,8 @@ inductive Reach (H : Bytes → Bytes) (sc : Script) : State → Prop where
   | fill {s : State} : Reach H sc s → Reach H sc (fillBh H s)
   | abort {s : State} (e : Option ErrKind) : Reach H sc s → Reach H sc (Handler.abort s e)
   | send {s : State} (nx : RoundSpec) : Reach H sc s → Reach H sc (sendAll s (emitFor s nx))
-  | enter {s : State} (i : Nat) (nx : RoundSpec) : Reach H sc s → Reach H sc (Handler.enter s i nx)
+  | enter {s : State} (i : Nat) (nx : RoundSpec) : s.sc.rounds[i]? = some nx → i = s.idx + 1 → Reach H sc s →
+      Reach H sc (Handler.enter s i nx)
   | enter0 {s : State} : Reach H sc s → Reach H sc (Handler.enter0 s)
   | output {s : State} (v : Nat) : Reach H sc s → Reach H sc { Handler.enter0 s with result := some v }
 
@@ -468,7 +504,7 @@ theorem reach_preserved (H : Bytes → Bytes) (sc : Script) : Preserved H (Reach
   onFill := fun _ o => Reach.fill o
   onAbort := fun _ e o => Reach.abort e o
   onSend := fun _ nx o => Reach.send nx o
-  onEnter := fun _ i nx o => Reach.enter i nx o
+  onEnter := fun _ i nx h1 h2 o => Reach.enter i nx h1 h2 o
   onEnter0 := fun _ o => Reach.enter0 o
   onOutput := fun _ v o => Reach.output v o
 
@@ -481,7 +517,7 @@ theorem reach_pres {H : Bytes → Bytes} {P : State → Prop} (hp : Preserved H 
   | fill _ ih => exact hp.onFill _ ih
   | abort e _ ih => exact hp.onAbort _ e ih
   | send nx _ ih => exact hp.onSend _ nx ih
-  | enter i nx _ ih => exact hp.onEnter _ i nx ih
+  | enter i nx h1 h2 _ ih => exact hp.onEnter _ i nx h1 h2 ih
   | enter0 _ ih => exact hp.onEnter0 _ ih
   | output v _ ih => exact hp.onOutput _ v ih
 
